@@ -42,6 +42,11 @@ func (c14) Assumptions() []string {
 		"a listed application that is also excluded is outside the alphabet",
 	}
 }
+func (c14) Binary() string { return "ov" } // the views family owns the map iteration order
+
+var c14ViewsCases func(tier string, emit func(string, interface{}))
+var c14RunViews func(c core.Case) core.Outcome
+
 func (c14) CaseTimeout() time.Duration { return 5 * time.Minute }
 func (c14) InitWorker() {
 	logrus.SetOutput(io.Discard)
@@ -84,6 +89,9 @@ func (c14) Cases(tier string, emit func(string, interface{})) {
 		for g := 0; g < 1<<uint(len(c14Pairs(n))); g++ {
 			emit("n4", c14Case{N: n, Graph: g, Human: -1})
 		}
+	}
+	if c14ViewsCases != nil {
+		c14ViewsCases(tier, emit)
 	}
 }
 
@@ -222,6 +230,9 @@ func subsetOf(names []string, mask int) []string {
 }
 
 func (c14) Run(c core.Case) core.Outcome {
+	if c.Kind == "views" {
+		return c14RunViews(c)
+	}
 	var cs c14Case
 	_ = json.Unmarshal(c.Data, &cs)
 	var o core.Outcome
